@@ -13,19 +13,28 @@
 (*     its final path" (Fix contains "exists"; before /repo 11c4172 it was *)
 (*     the size comparison alone: Fix without "exists", kept as the        *)
 (*     negative-control configurations NC_presence / NC_converge);         *)
-(*   - attempt 1 of a processEntry run never resumes, attempts > 1 resume  *)
-(*     when 0 < StatFile < SizeBytes;                                      *)
+(*   - an attempt walks the resolver's candidate peers in order: any       *)
+(*     per-peer failure falls through to the next candidate EXCEPT a       *)
+(*     checksum mismatch, which ends the attempt;                          *)
+(*   - every pullOnce (i.e. every PEER, not every attempt) re-derives the  *)
+(*     resume offset and re-hashes the staged prefix: attempt 1 never      *)
+(*     resumes, attempts > 1 resume when 0 < StatFile < SizeBytes;         *)
 (*   - WriteReader opens "<path>.part" with O_TRUNC before the first body  *)
-(*     byte (and even when the fetch fails before any byte);               *)
-(*   - promotion (rename .part -> final) happens only when Fetch returned  *)
-(*     nil, i.e. after the SHA-256 over prefix+tail matched;               *)
+(*     byte (and even when the fetch fails before any byte), AppendReader  *)
+(*     appends to what is there;                                           *)
+(*   - the backend's write call returns (ObserveMidAttempt) BEFORE the     *)
+(*     puller's post-processing; promotion (rename .part -> final) happens *)
+(*     inside that call and only when the stream ended cleanly, which the  *)
+(*     puller lets happen only after Fetch returned nil, i.e. after the    *)
+(*     SHA-256 over prefix+tail matched;                                   *)
 (*   - deleteFile -> Backend.Delete removes the FINAL path only;           *)
 (*   - running out of attempts is a failure also when the last attempt     *)
 (*     found no candidate peers (Fix contains "nopeer_fails"; before /repo *)
 (*     bd40fd9 that path left failed = FALSE: negative control NC_gate).   *)
 (* A file is Size units long; a unit is one byte (or one block) of the     *)
 (* real file.  "ok" of a staging file = it is a prefix of the good bytes.  *)
-(* One scripted outcome is consumed per attempt at the PeerResolver call.  *)
+(* The plan of an attempt (0, 1 or 2 candidate peers and one scripted      *)
+(* outcome per peer) is consumed at the PeerResolver call.                 *)
 (* A "session" is one processEntry run (<= Retry attempts); sessions are   *)
 (* re-started (a later FSM callback / catch-up scan) until one complete    *)
 (* session has run after the script was exhausted ("faults stopped").      *)
@@ -33,16 +42,22 @@
 EXTENDS Integers, Sequences, FiniteSets, TLC, Json
 
 CONSTANTS Sizes,        \* set of file sizes in units
-          MaxScript,    \* maximal number of scripted (faulty or not) outcomes
+          MaxScript,    \* maximal number of scripted per-peer outcomes (an attempt without peers counts 1)
           Retry,        \* RetryMaxAttempts
           Fix,          \* repairs present in the code; {"exists","nopeer_fails"} = /repo now; {} = as first written;
                         \*   "exists"       presence needs the file at its final path
                         \*   "nopeer_fails" running out of attempts on "no candidate peers" is a failure
           Emit
 
-NoByteOutcomes == {"nopeer", "dial", "errack", "notfound", "wrongsize", "wronghash", "badoffset"}
-OutcomesOf(sz) == [t : NoByteOutcomes \cup {"ok"}, k : {0}]
-                  \cup [t : {"trunc", "corrupt"}, k : 0..(sz-1)]
+None == [t |-> "none", k |-> 0]
+Ok   == [t |-> "ok", k |-> 0]
+\* outcomes of the only / first candidate peer
+Outcomes1(sz) == [t : {"dial", "errack", "notfound", "wrongsize", "wronghash", "badoffset", "ok"}, k : {0}]
+                 \cup [t : {"trunc", "corrupt"}, k : 0..(sz-1)]
+\* a second candidate is only reached when the first one failed with something else than a checksum mismatch
+FallsThrough(o) == o.t \in {"dial", "errack", "notfound", "wrongsize", "badoffset", "trunc"}
+\* outcomes of the second candidate (the byte-less error acks are all alike for it: one representative)
+Outcomes2(sz) == [t : {"dial", "wronghash", "ok"}, k : {0}] \cup [t : {"trunc", "corrupt"}, k : 0..(sz-1)]
 
 Absent == [len |-> -1, ok |-> TRUE]
 InitialParts(sz) == {Absent}
@@ -56,20 +71,23 @@ VARIABLES size,      \* file size
           sess,      \* number of sessions started
           calm,      \* TRUE when the current session started after the script was exhausted
           att,       \* attempt number inside the session (1..Retry)
-          pc,        \* "idle" | "precheck" | "resolve" | "xfer" | "after" | "done"
-          cur,       \* outcome of the current attempt
-          offset,    \* resume offset chosen for the current attempt
-          prefOk,    \* the resumed prefix is a prefix of the good bytes
+          pc,        \* "idle" | "precheck" | "resolve" | "xfer" | "mid" | "post" | "after" | "done"
+          plan,      \* [np, o1, o2, x1, x2]: candidates of the current attempt and their outcomes (x = served after the script ended)
+          pi,        \* index of the candidate being fetched from (1 | 2)
+          offs,      \* <<offset used for candidate 1, offset used for candidate 2>> (-1: not fetched)
+          prefOk,    \* the prefix the current pullOnce resumed from is a prefix of the good bytes
+          res,       \* result of the current pullOnce: "ok" | "mismatch" | "badoffset" | "error"
           succeeded, \* processEntry's local flag at the end of the last session
           cnt,       \* [pulled, skipped, failed, mismatch]
           exhausted, \* the script has ended: every further outcome is "ok"
           gate,      \* FullyCaughtUp(): "unset" before the catch-up session (the first one) ended, then "open"/"closed"
-          hist       \* one record per consumed outcome / session end (generation only)
+          hist       \* generation only
 
-vars == <<size, final, part, left, sess, calm, att, pc, cur, offset, prefOk, succeeded, cnt, exhausted, gate, hist>>
-view == <<size, final, part, left, sess, calm, att, pc, cur, offset, prefOk, succeeded, cnt, exhausted, gate>>
+vars == <<size, final, part, left, sess, calm, att, pc, plan, pi, offs, prefOk, res, succeeded, cnt, exhausted, gate, hist>>
+view == <<size, final, part, left, sess, calm, att, pc, plan, pi, offs, prefOk, res, succeeded, cnt, exhausted, gate>>
 
 MaxSess == MaxScript + 2
+NoPlan == [np |-> 0, o1 |-> None, o2 |-> None, x1 |-> FALSE, x2 |-> FALSE]
 
 Obs == [final |-> final, plen |-> part.len, pok |-> part.ok,
         pulled |-> cnt.pulled, skipped |-> cnt.skipped, failed |-> cnt.failed, mismatch |-> cnt.mismatch]
@@ -79,7 +97,7 @@ Init == /\ size \in Sizes
         /\ part \in InitialParts(size)
         /\ left = MaxScript
         /\ sess = 0 /\ calm = FALSE /\ att = 0 /\ pc = "idle"
-        /\ cur = [t |-> "ok", k |-> 0] /\ offset = 0 /\ prefOk = TRUE
+        /\ plan = NoPlan /\ pi = 1 /\ offs = <<-1, -1>> /\ prefOk = TRUE /\ res = "error"
         /\ succeeded = FALSE
         /\ cnt = [pulled |-> 0, skipped |-> 0, failed |-> 0, mismatch |-> 0]
         /\ exhausted = FALSE /\ gate = "unset"
@@ -97,7 +115,7 @@ StartSession ==
     /\ calm' = exhausted
     /\ succeeded' = FALSE
     /\ hist' = Append(hist, [ev |-> "session", calm |-> exhausted])
-    /\ UNCHANGED <<size, final, part, left, cur, offset, prefOk, cnt, exhausted, gate>>
+    /\ UNCHANGED <<size, final, part, left, plan, pi, offs, prefOk, res, cnt, exhausted, gate>>
 
 \* the driver stops when a whole session ran after the faults stopped, or at the session bound
 Stop ==
@@ -105,94 +123,127 @@ Stop ==
     /\ sess > 0
     /\ (calm \/ sess >= MaxSess)
     /\ pc' = "done"
-    /\ UNCHANGED <<size, final, part, left, sess, calm, att, cur, offset, prefOk, succeeded, cnt, exhausted, gate, hist>>
+    /\ UNCHANGED <<size, final, part, left, sess, calm, att, plan, pi, offs, prefOk, res, succeeded, cnt, exhausted, gate, hist>>
 
-\* end of a processEntry run: s = succeeded, f = failed (processEntry's two local flags), c = counters.
+\* end of a processEntry run: s = succeeded, f = failed (processEntry's two local flags), c = counters, h = history so far.
 \* The first session is the catch-up walker's: its defer records a catch-up failure iff f; a later
 \* success clears the recorded failure (clearCatchUpFailure).
-EndSession(s, f, c) ==
+EndSession(s, f, c, h) ==
     /\ pc' = "idle" /\ succeeded' = s /\ cnt' = c
     /\ gate' = IF sess = 1 THEN (IF f THEN "closed" ELSE "open")
                ELSE IF s THEN "open" ELSE gate
-    /\ hist' = Append(hist, [ev |-> "end", succeeded |-> s, caught |-> (gate' = "open"), obs |->
+    /\ hist' = Append(h, [ev |-> "end", succeeded |-> s, caught |-> (gate' = "open"), obs |->
                   [final |-> final', plen |-> part'.len, pok |-> part'.ok,
                    pulled |-> c.pulled, skipped |-> c.skipped, failed |-> c.failed, mismatch |-> c.mismatch]])
 
 \* processEntry: pre-pull presence check
 PreCheck ==
     /\ pc = "precheck"
-    /\ UNCHANGED <<size, final, part, left, sess, calm, att, cur, offset, prefOk, exhausted>>
+    /\ UNCHANGED <<size, final, part, left, sess, calm, att, plan, pi, offs, prefOk, res, exhausted>>
     /\ IF Stat = size /\ ("exists" \in Fix => final # "absent")
-         THEN EndSession(TRUE, FALSE, [cnt EXCEPT !.skipped = @ + 1])
+         THEN EndSession(TRUE, FALSE, [cnt EXCEPT !.skipped = @ + 1], hist)
          ELSE /\ pc' = "resolve" /\ UNCHANGED <<succeeded, cnt, gate, hist>>
 
-\* PeerResolver.ResolvePeers: the point where the scripted outcome of this attempt is consumed
+\* PeerResolver.ResolvePeers: the point where the plan of this attempt (candidates + their scripted outcomes) is consumed
 Resolve ==
     /\ pc = "resolve"
-    /\ \/ /\ ~exhausted /\ left > 0
-          /\ \E o \in OutcomesOf(size) : cur' = o
+    /\ \/ /\ ~exhausted /\ left > 0                                  \* no candidate peers
+          /\ plan' = NoPlan /\ left' = left - 1 /\ UNCHANGED exhausted
+       \/ /\ ~exhausted /\ left > 0                                  \* one candidate
+          /\ \E o \in Outcomes1(size) : plan' = [np |-> 1, o1 |-> o, o2 |-> None, x1 |-> FALSE, x2 |-> FALSE]
           /\ left' = left - 1 /\ UNCHANGED exhausted
-       \/ /\ ~exhausted
-          /\ exhausted' = TRUE /\ cur' = [t |-> "ok", k |-> 0] /\ UNCHANGED left
+       \/ /\ ~exhausted /\ left > 1                                  \* two candidates, both scripted
+          /\ \E o \in {x \in Outcomes1(size) : FallsThrough(x)}, q \in Outcomes2(size) :
+                plan' = [np |-> 2, o1 |-> o, o2 |-> q, x1 |-> FALSE, x2 |-> FALSE]
+          /\ left' = left - 2 /\ UNCHANGED exhausted
+       \/ /\ ~exhausted /\ left > 0                                  \* two candidates, the script ends after the first
+          /\ \E o \in {x \in Outcomes1(size) : FallsThrough(x)} :
+                plan' = [np |-> 2, o1 |-> o, o2 |-> Ok, x1 |-> FALSE, x2 |-> TRUE]
+          /\ left' = left - 1 /\ exhausted' = TRUE
+       \/ /\ ~exhausted                                              \* the script ends here
+          /\ plan' = [np |-> 1, o1 |-> Ok, o2 |-> None, x1 |-> TRUE, x2 |-> FALSE]
+          /\ exhausted' = TRUE /\ UNCHANGED left
        \/ /\ exhausted
-          /\ cur' = [t |-> "ok", k |-> 0] /\ UNCHANGED <<left, exhausted>>
-    /\ pc' = "xfer"
-    \* tryResumeFromPartial (attempt > 1 only); the final path is absent here, so ReadToAt hashes the staging file
-    /\ IF att > 1 /\ Stat > 0 /\ Stat < size
-         THEN offset' = Stat /\ prefOk' = part.ok
-         ELSE offset' = 0 /\ prefOk' = TRUE
+          /\ plan' = [np |-> 1, o1 |-> Ok, o2 |-> None, x1 |-> TRUE, x2 |-> FALSE]
+          /\ UNCHANGED <<left, exhausted>>
+    /\ pi' = 1 /\ offs' = <<-1, -1>> /\ res' = "error"
+    /\ pc' = IF plan'.np = 0 THEN "after" ELSE "xfer"
     \* the resolver call is also where the driver can look at what the previous attempt left behind
-    /\ hist' = Append(IF att > 1 THEN Append(hist, [ev |-> "obs", obs |-> Obs]) ELSE hist, [ev |-> "attempt", t |-> cur'.t, k |-> cur'.k, att |-> att, offset |-> offset',
-                                 x |-> exhausted'])     \* x: served after the script ended
-    /\ UNCHANGED <<size, final, part, sess, calm, att, succeeded, cnt, gate>>
+    /\ hist' = IF att > 1 THEN Append(hist, [ev |-> "obs", obs |-> Obs]) ELSE hist
+    /\ UNCHANGED <<size, final, part, sess, calm, att, prefOk, succeeded, cnt, gate>>
 
-\* what the write goroutine leaves before any body byte: WriteReader truncates, AppendReader does not
-Base == IF offset = 0 THEN [len |-> 0, ok |-> TRUE] ELSE part
+Cur == IF pi = 1 THEN plan.o1 ELSE plan.o2
 
-\* pullOnce: Fetch + writeFileTail + the error handling after both returned
+\* pullOnce, first half: tryResumeFromPartial (attempt > 1 only; the final path is absent here, so ReadToAt hashes the
+\* staging file as it is NOW -- after whatever an earlier candidate of the same attempt appended), then Fetch and
+\* writeFileTail run to completion.  The state reached is the one in which the backend's write call returns.
 Transfer ==
     /\ pc = "xfer"
-    /\ LET tail == size - offset
-           d    == IF cur.k < tail - 1 THEN cur.k ELSE tail - 1     \* units delivered before a truncation / index corrupted
-           deleteFinal == "absent"                                     \* Backend.Delete(path): final path only
-       IN CASE cur.t = "nopeer" ->
-                 /\ UNCHANGED <<final, part, cnt>>                     \* no pullOnce at all
-            [] cur.t \in {"dial", "errack", "notfound", "wrongsize"} ->
-                 /\ part' = Base /\ UNCHANGED <<final, cnt>>
-            [] cur.t = "wronghash" ->
-                 /\ part' = Base /\ final' = deleteFinal /\ cnt' = [cnt EXCEPT !.mismatch = @ + 1]
-            [] cur.t = "badoffset" ->
-                 /\ part' = Base /\ final' = deleteFinal /\ UNCHANGED cnt
-            [] cur.t = "trunc" ->
-                 /\ part' = [len |-> Base.len + d, ok |-> Base.ok] /\ UNCHANGED <<final, cnt>>
-            [] cur.t = "corrupt" ->
-                 /\ part' = [len |-> size, ok |-> FALSE] /\ final' = deleteFinal
-                 /\ cnt' = [cnt EXCEPT !.mismatch = @ + 1]
-            [] cur.t = "ok" ->
-                 IF Base.ok /\ prefOk                                   \* SHA-256(prefix ++ tail) = manifest hash
-                   THEN /\ final' = "good" /\ part' = Absent           \* rename .part -> final
-                        /\ cnt' = [cnt EXCEPT !.pulled = @ + 1]
-                   ELSE /\ part' = [len |-> size, ok |-> FALSE] /\ final' = deleteFinal
-                        /\ cnt' = [cnt EXCEPT !.mismatch = @ + 1]
-    /\ pc' = "after"
-    /\ UNCHANGED <<size, left, sess, calm, att, cur, offset, prefOk, succeeded, exhausted, gate, hist>>
+    /\ LET resume == att > 1 /\ Stat > 0 /\ Stat < size
+           off    == IF resume THEN Stat ELSE 0
+           pOk    == IF resume THEN part.ok ELSE TRUE
+           base   == IF off = 0 THEN [len |-> 0, ok |-> TRUE] ELSE part     \* WriteReader truncates, AppendReader does not
+           tail   == size - off
+           d      == IF Cur.k < tail - 1 THEN Cur.k ELSE tail - 1           \* units delivered before a truncation
+       IN /\ offs' = [offs EXCEPT ![pi] = off]
+          /\ prefOk' = pOk
+          /\ CASE Cur.t \in {"dial", "errack", "notfound", "wrongsize"} ->
+                    /\ part' = base /\ res' = "error" /\ UNCHANGED final
+               [] Cur.t = "wronghash" ->
+                    /\ part' = base /\ res' = "mismatch" /\ UNCHANGED final
+               [] Cur.t = "badoffset" ->
+                    /\ part' = base /\ res' = "badoffset" /\ UNCHANGED final
+               [] Cur.t = "trunc" ->
+                    /\ part' = [len |-> base.len + d, ok |-> base.ok] /\ res' = "error" /\ UNCHANGED final
+               [] Cur.t = "corrupt" ->
+                    /\ part' = [len |-> size, ok |-> FALSE] /\ res' = "mismatch" /\ UNCHANGED final
+               [] Cur.t = "ok" ->
+                    IF base.ok /\ pOk                                       \* SHA-256(prefix ++ tail) = manifest hash
+                      THEN /\ final' = "good" /\ part' = Absent /\ res' = "ok"   \* clean EOF -> rename .part -> final
+                      ELSE /\ part' = [len |-> size, ok |-> FALSE] /\ res' = "mismatch" /\ UNCHANGED final
+    /\ pc' = "mid"
+    /\ UNCHANGED <<size, left, sess, calm, att, plan, pi, succeeded, cnt, exhausted, gate, hist>>
+
+\* the backend's WriteReader / AppendReader call has returned; the puller has not post-processed yet.  The driver
+\* looks at the final path here: (1) must hold in this intermediate state too.
+ObserveMidAttempt ==
+    /\ pc = "mid"
+    /\ pc' = "post"
+    /\ hist' = Append(hist, [ev |-> "mid", final |-> final, plen |-> part.len, pok |-> part.ok])
+    /\ UNCHANGED <<size, final, part, left, sess, calm, att, plan, pi, offs, prefOk, res, succeeded, cnt, exhausted, gate>>
+
+\* pullOnce, second half, and the candidate loop of processEntry
+Post ==
+    /\ pc = "post"
+    /\ final' = IF res \in {"mismatch", "badoffset"} THEN "absent" ELSE final     \* Backend.Delete(path): final path only
+    /\ cnt' = CASE res = "ok" -> [cnt EXCEPT !.pulled = @ + 1]
+                [] res = "mismatch" -> [cnt EXCEPT !.mismatch = @ + 1]
+                [] OTHER -> cnt
+    /\ IF res \in {"error", "badoffset"} /\ pi < plan.np
+         THEN pi' = 2 /\ pc' = "xfer"                     \* next candidate
+         ELSE pc' = "after" /\ UNCHANGED pi               \* success, checksum mismatch (break), or out of candidates
+    /\ UNCHANGED <<size, part, left, sess, calm, att, plan, offs, prefOk, res, succeeded, exhausted, gate, hist>>
+
+AttemptEvent == [ev |-> "attempt", np |-> plan.np, att |-> att,
+                 t |-> plan.o1.t, k |-> plan.o1.k, x |-> plan.x1, offset |-> offs[1],
+                 t2 |-> plan.o2.t, k2 |-> plan.o2.k, x2 |-> plan.x2, offset2 |-> offs[2]]
 
 \* processEntry: success return, give-up, or next attempt
 After ==
     /\ pc = "after"
-    /\ UNCHANGED <<size, final, part, left, sess, calm, cur, offset, prefOk, exhausted>>
-    /\ IF cur.t = "ok" /\ final = "good"
-         THEN EndSession(TRUE, FALSE, cnt) /\ UNCHANGED att
-       ELSE IF att >= Retry
-         THEN \* an attempt that ended in "no candidate peers" `continue`s past the give-up block:
-              \* the loop ends with failed = FALSE and totalFailed untouched
-              LET f == cur.t # "nopeer" \/ "nopeer_fails" \in Fix
-              IN EndSession(FALSE, f, IF f THEN [cnt EXCEPT !.failed = @ + 1] ELSE cnt) /\ UNCHANGED att
-       ELSE /\ pc' = "precheck" /\ att' = att + 1 /\ UNCHANGED <<succeeded, cnt, gate, hist>>
+    /\ UNCHANGED <<size, final, part, left, sess, calm, plan, pi, offs, prefOk, res, exhausted>>
+    /\ LET h == Append(hist, AttemptEvent)
+       IN IF plan.np > 0 /\ res = "ok"
+            THEN EndSession(TRUE, FALSE, cnt, h) /\ UNCHANGED att
+          ELSE IF att >= Retry
+            THEN \* before bd40fd9 an attempt that ended in "no candidate peers" `continue`d past the give-up block
+                 LET f == plan.np > 0 \/ "nopeer_fails" \in Fix
+                 IN EndSession(FALSE, f, IF f THEN [cnt EXCEPT !.failed = @ + 1] ELSE cnt, h) /\ UNCHANGED att
+          ELSE /\ pc' = "precheck" /\ att' = att + 1 /\ hist' = h /\ UNCHANGED <<succeeded, cnt, gate>>
 
 Done == pc = "done" /\ UNCHANGED vars
 
-Next == StartSession \/ Stop \/ PreCheck \/ Resolve \/ Transfer \/ After \/ Done
+Next == StartSession \/ Stop \/ PreCheck \/ Resolve \/ Transfer \/ ObserveMidAttempt \/ Post \/ After \/ Done
 Spec == Init /\ [][Next]_vars
 
 -----------------------------------------------------------------------------
@@ -200,7 +251,8 @@ TypeOK == /\ final \in {"absent", "good", "bad"}
           /\ part.len \in -1..(size+1)
           /\ att \in 0..Retry
 
-\* (1) a file at its final path has exactly the manifest bytes
+\* (1) a file at its final path has exactly the manifest bytes -- in every state, in particular in the intermediate
+\*     state observed by ObserveMidAttempt
 FinalGood == final # "absent" => final = "good"
 
 \* (2) the puller never counts a file as present while it is missing at its final path
@@ -211,6 +263,9 @@ Converges == (pc = "done" /\ calm) => final = "good"
 
 \* (2') the catch-up status never reports "fully caught up" while the file is missing
 GateSound == (pc \in {"idle", "done"} /\ gate = "open") => final = "good"
+
+\* a second candidate never inherits a stale offset: it starts where the staging file now ends
+FreshOffsetPerPeer == (pc \in {"mid", "post"} /\ pi = 2 /\ offs[2] > 0) => offs[2] >= offs[1]
 
 EmitInv == (Emit /\ pc = "done") => PrintT(<<"TRACE", ToJson(hist)>>)
 =============================================================================
